@@ -81,8 +81,10 @@ def oracle(p):
         counts["headers"] += 1
         try:
             img = sitk_image(h)
-            g = Grid.from_sitk(img)
-            g_o = Grid(size=h["size"], origin=h["origin"], spacing=h["spacing"], direction=flat(h["direction"]))
+            ac = rng.random() < 0.5   # the grid <-> world convention must not depend on the normalised-cube convention
+            g = Grid.from_sitk(img, align_corners=ac)
+            g_o = Grid(size=h["size"], origin=h["origin"], spacing=h["spacing"], direction=flat(h["direction"]), align_corners=ac)
+            counts["align_corners=%s" % ac] = counts.get("align_corners=%s" % ac, 0) + 1
             if g != g_o:
                 fail("C02:from_sitk:differs", "Grid.from_sitk differs from Grid(size, origin, spacing, direction)", header=h)
             scale = max(abs(v) for v in h["origin"]) + max(h["spacing"]) * max(h["size"]) + 1
@@ -137,18 +139,63 @@ def oracle(p):
             cen = torch.tensor(img.TransformContinuousIndexToPhysicalPoint(mid), dtype=torch.float64)
             if not bool(torch.all((g.center().double() - cen).abs() <= 3e-5 * scale)):
                 fail("C02:center:vs_itk", "center() is not the physical point of index (n-1)/2", header=h, got=g.center().tolist(), itk=cen.tolist())
-            gci = Grid(size=h["size"], center=cen.tolist(), spacing=h["spacing"], direction=h["direction"])
+            gci = Grid(size=h["size"], center=cen.tolist(), spacing=h["spacing"], direction=h["direction"], align_corners=ac)
             oi = gci.index_to_world(torch.zeros(D, dtype=torch.float64), decimals=None).double()
             if not bool(torch.all((oi - torch.tensor(h["origin"], dtype=torch.float64)).abs() <= 3e-5 * scale)):
                 fail("C02:center_route:vs_itk", "grid built with center= (ITK's mid point) does not place index 0 at the header origin",
                      header=h, got=oi.tolist())
-            gc = Grid(size=h["size"], center=g.center(), spacing=h["spacing"], direction=h["direction"])
+            gc = Grid(size=h["size"], center=g.center(), spacing=h["spacing"], direction=h["direction"], align_corners=ac)
             if gc != g:
                 fail("C02:center_route", "Grid(center=g.center()) differs from Grid(origin=...)", header=h)
             try:
                 Grid(size=h["size"], center=g.center(), origin=h["origin"], spacing=h["spacing"], direction=h["direction"])
             except Exception as e:  # noqa
                 fail("C02:center_and_origin", f"consistent center and origin rejected: {type(e).__name__}", header=h)
+            # file-header route: Grid.from_file / Grid.from_reader must give the grid of the image ITK reads back
+            if it % 3 == 0 and p.get("scratch"):
+                import os
+                for ext, ftol in ((".mha", 3e-5), (".nii.gz", 2e-4)):
+                    if ext == ".nii.gz" and D == 2:
+                        continue
+                    path = os.path.join(p["scratch"], f"c02_{it}{ext}")
+                    sitk.WriteImage(img, path)
+                    counts["files" + ext] = counts.get("files" + ext, 0) + 1
+                    ref = sitk.ReadImage(path)
+                    g_ref = Grid.from_sitk(ref, align_corners=ac)
+                    reader = sitk.ImageFileReader()
+                    reader.SetFileName(path)
+                    reader.ReadImageInformation()
+                    for nm, gf in (("from_file", Grid.from_file(path, align_corners=ac)), ("from_reader", Grid.from_reader(reader, align_corners=ac))):
+                        bad = []
+                        if list(gf.size()) != list(g_ref.size()):
+                            bad.append("size")
+                        if not bool(torch.all((gf.origin().double() - torch.tensor(ref.GetOrigin(), dtype=torch.float64)).abs() <= ftol * scale)):
+                            bad.append("origin")
+                        if not bool(torch.all((gf.spacing().double() - torch.tensor(ref.GetSpacing(), dtype=torch.float64)).abs() <= 1e-5)):
+                            bad.append("spacing")
+                        if not bool(torch.all((gf.direction().double().flatten() - torch.tensor(ref.GetDirection(), dtype=torch.float64)).abs() <= 1e-5)):
+                            bad.append("direction")
+                        idx = [rng.uniform(-2, n + 2) for n in h["size"]]
+                        wf = gf.index_to_world(torch.tensor(idx, dtype=torch.float64), decimals=None).double()
+                        wr = torch.tensor(ref.TransformContinuousIndexToPhysicalPoint(idx), dtype=torch.float64)
+                        if not bool(torch.all((wf - wr).abs() <= ftol * scale)):
+                            bad.append("index_to_world")
+                        if bad:
+                            fail(f"C02:{nm}:{ext.strip('.')}:vs_itk", f"Grid.{nm} of a {ext} file disagrees with the image ITK reads back in: {', '.join(bad)}",
+                                 header=h, ext=ext)
+                    os.remove(path)
+            # GridAttrs: the direction may be given flat or as a matrix (ndarray, list of rows, tuple of rows)
+            import numpy as np
+            for form, dmat in (("flat", flat(h["direction"])), ("rows", [list(r) for r in h["direction"]]),
+                               ("ndarray", np.array(h["direction"], dtype=float)), ("tuple-rows", tuple(tuple(r) for r in h["direction"]))):
+                gaf = GridAttrs(size=h["size"], origin=h["origin"], spacing=h["spacing"], direction=dmat)
+                idx = [rng.uniform(-2, n + 2) for n in h["size"]]
+                wi = torch.tensor(img.TransformContinuousIndexToPhysicalPoint(idx), dtype=torch.float64)
+                w = torch.tensor(gaf.index_to_physical_space(idx), dtype=torch.float64)
+                b = torch.tensor(gaf.physical_space_to_continuous_index(wi.tolist()), dtype=torch.float64)
+                if not bool(torch.all((w - wi).abs() <= 1e-9 * scale)) or not bool(torch.all((b - torch.tensor(idx, dtype=torch.float64)).abs() <= 1e-7 * (max(h["size"]) * 3 + 4))):
+                    fail(f"C02:GridAttrs:direction-form:{form}", "GridAttrs built with this form of the direction argument disagrees with ITK",
+                         header=h, index=idx, got=w.tolist(), itk=wi.tolist())
             # header -> Image -> header
             counts["roundtrip"] += 1
             data = torch.arange(g.numel(), dtype=torch.float32).reshape(1, *g.shape)
